@@ -265,10 +265,13 @@ def _rmul(a, b):
     if not isinstance(a, Re) and not isinstance(b, Re):
         return _norm(conc_of(a) * conc_of(b))
     if MODE[0] == 'euf':
-        if not isinstance(a, Re) and conc_of(a) == 1:
-            return b
-        if not isinstance(b, Re) and conc_of(b) == 1:
-            return a
+        # x*1 == x and x*0 == 0 hold under == for every finite double
+        for u, v in ((a, b), (b, a)):
+            if not isinstance(u, Re):
+                if conc_of(u) == 1:
+                    return v
+                if conc_of(u) == 0:
+                    return 0
         ta, tb = zreal(a), zreal(b)
         if ta.get_id() > tb.get_id():
             ta, tb = tb, ta
